@@ -6,8 +6,9 @@
   panic, any interleaving of their atomic steps, any number of steps.
 -/
 import Netpoll.Conn.LifeReachLemmas
+import Netpoll.Conn.Callbacks
 namespace Netpoll.Props.C05
-open Netpoll.Conn.Life
+open Netpoll.Conn.Life Netpoll.Conn.Callbacks
 
 /-- the close callbacks (the callback list) are executed at most once, whatever happens -/
 theorem C05_cb_once {s : S} (h : Reachable s) : s.cbRuns ≤ 1 := by
@@ -87,8 +88,6 @@ theorem C05_isactive_monotone_run {s s' : S} (as : List Act) (hr : run s as = so
 
 /-- LIFO: `AddCloseCallback` pushes a node in front of `latest`; `closeCallback` walks `latest, latest.pre, …`:
 the callbacks run in reverse order of registration -/
-def addCloseCallback {α : Type} (latest : List α) (cb : α) : List α := cb :: latest
-def runOrder {α : Type} (latest : List α) : List α := latest
 theorem C05_lifo {α : Type} (cbs : List α) : runOrder (cbs.foldl addCloseCallback []) = cbs.reverse := by
   have : ∀ (acc : List α), cbs.foldl addCloseCallback acc = cbs.reverse ++ acc := by
     induction cbs with
